@@ -11,6 +11,9 @@ Engine D (bounded-exhaustive enumeration on the real classes)
   D-train : ImmuneSystem.train_agent + inspect on every observation window over a small observation alphabet
             (three output shapes and no output), for system shapes (samples, minimum, window size; a window of one,
             a window never filled) x Thymus tolerance (default, 0, fraction, huge).
+  D-edge  : ImmuneSystem trained on a window (times x errors x canary history x shape x tolerance), then observation /
+            canary events computed from the trained profile so that one statistic of the produced fingerprint is just
+            below / exactly at / just above its bound, x second deviation x manual flag x anomaly streak.
 Engine A on a bare TCell ("T", explicit-state BFS run to its fixpoint)
   every history of inspect(one fingerprint per reference class) / flag_manually / reset / reset_without_confirmation
   per profile (incl. point intervals) x thresholds (incl. 0 and 1) x with / without a used sibling watcher on the same
@@ -21,6 +24,9 @@ Engine A (explicit-state BFS, canonical-state dedup, virtual clock)
   record_canary_result / train_agent / inspect / flag_agent / tcell.reset / tcell.reset_without_confirmation /
   mark_agent_updated / clock advance / tolerance-rule toggles (/ register_agent again); roots include other
   constructor values (window of one, stability threshold 0, memory capacity 1, Thymus tolerance 0).
+Engine A with derived events ("E")
+  ImmuneSystem histories whose events are derived from the trained baseline: a full window with the mean response time
+  exactly on the upper bound, canary results up to exactly the trained minimum (and one more), retraining, resets.
 Engine A on two agents / two systems ("X")
   the same histories for one agent while a second agent in the same ImmuneSystem, or an agent of the same name in a
   second ImmuneSystem of the same process, carries a flag / streak / remembered threat / other baseline / anergy and
@@ -34,12 +40,24 @@ fingerprint handed to / produced for the inspection, the watcher's public `is_an
 ImmuneResponse / SuppressionResult.  Every clause is one-directional:
     (a) CONFIRMED/CRITICAL or isolate/shutdown  =>  baseline violated AND (canary failed OR anomaly streak >=
         configured threshold OR manual flag OR remembered threat)
-    (b) fingerprint strictly inside every bound  =>  NONE / IGNORE
+    (b) fingerprint inside every bound (closed)  =>  NONE / IGNORE
     (c) watcher reports is_anergic, or as many false alarms were dismissed as its anergy threshold  =>  NONE / IGNORE
     (d) Treg: CRITICAL => action unchanged; action never raised; lowered by at most one step
     (e) train_agent returned POSITIVE           =>  the immediately following inspect is NONE / IGNORE
-A value within 1e-9 of a bound is "boundary": it is treated as violating for (a) and as not-inside for (b), i.e.
-the weaker reading on both sides (the code's inclusive choice is recorded as an observation).
+Bounds are read as the baseline documents them (field names `*_bounds` reported as closed intervals "[lo, hi]",
+`error_rate_max`, `canary_accuracy_min`): a value exactly ON a bound is inside, a canary accuracy exactly equal to the
+trained minimum has NOT failed; comparisons are exact (one ulp beyond a bound is outside).  The reference never calls
+the baseline's own check().  Every alphabet is derived from the public fields of the profile under test so that each
+trained quantity is met just below, exactly at and just above (next float) its bound:
+  D-tcell adds a "fine" family (one dimension on the float neighbours of its bound, the others inside / on their
+  bound / far outside; every subset of dimensions on their bounds at once) for all profiles, incl. canary minimum 0.0
+  and 1.0, point intervals and error maximum 0;
+  D-edge drives the same through the whole ImmuneSystem: after training, observation windows / canary results are
+  computed from the trained profile (reference replay of the display's statistics) so that the produced fingerprint
+  has one statistic below / at / above its bound, crossed with a second deviation, the manual flag and an anomaly
+  streak one short of its threshold;
+  engine A gets the derived events "window with the response time exactly on the upper bound" and "canary results up
+  to exactly the trained minimum" as operations.
 """
 from __future__ import annotations
 
@@ -48,8 +66,8 @@ import datetime as _dt
 import enum
 import hashlib
 import itertools
+import math
 import traceback
-from fractions import Fraction
 
 from mc import common, explore, vclock
 
@@ -71,7 +89,6 @@ vclock.install_global([m_treg, m_display, m_memory, m_tcell, m_is])
 
 AID = "agent"
 T0 = _dt.datetime(2030, 1, 1, 12, 0, 0)
-EPS = Fraction(1, 10**9)
 NONE, SUSP, CONF, CRIT = ThreatLevel.NONE, ThreatLevel.SUSPICIOUS, ThreatLevel.CONFIRMED, ThreatLevel.CRITICAL
 LEVELS = [NONE, SUSP, CONF, CRIT]
 # the action ladder named by the statement (ALERT is not on it and is judged only against escalation)
@@ -86,49 +103,36 @@ CONSISTENT = {(NONE, ResponseAction.IGNORE), (SUSP, ResponseAction.MONITOR), (CO
 # reference model (from the property text; public bounds only)
 # ------------------------------------------------------------------------------------------------
 
-def _cmp(x, b):
-    """-1 / 0 / +1 for x below / within 1e-9 of / above the bound b (exact where it matters)."""
-    d = x - b
-    if d > 1e-6:
-        return 1
-    if d < -1e-6:
-        return -1
-    fd = Fraction(x) - Fraction(b)
-    if abs(fd) <= EPS:
-        return 0
-    return 1 if fd > 0 else -1
-
-
 def position(profile, fp):
-    """(outside, boundary, canary_outside, canary_boundary): how the fingerprint sits relative to the bounds."""
-    out = bd = 0
+    """(outside, at, canary_failed, canary_at) under the documented reading of the baseline: closed intervals for the
+    three ranged statistics, error rate above its maximum, unknown hashes, canary accuracy below its minimum.
+    outside = number of fields the fingerprint violates; at = number of fields sitting exactly ON a bound (those are
+    inside; the count only names the coverage class).  Exact float comparisons."""
+    out = at = 0
     for x, (lo, hi) in ((fp.output_length_mean, profile.output_length_bounds),
                         (fp.response_time_mean, profile.response_time_bounds),
                         (fp.confidence_mean, profile.confidence_bounds)):
-        a, b = _cmp(x, lo), _cmp(x, hi)
-        if a == 0 or b == 0:
-            bd += 1
-        elif a < 0 or b > 0:
+        if x < lo or x > hi:
             out += 1
-    c = _cmp(fp.error_rate, profile.error_rate_max)
-    if c == 0:
-        bd += 1
-    elif c > 0:
+        elif x == lo or x == hi:
+            at += 1
+    if fp.error_rate > profile.error_rate_max:
         out += 1
+    elif fp.error_rate == profile.error_rate_max:
+        at += 1
     if fp.vocabulary_hash not in profile.valid_vocabulary_hashes:
         out += 1
     if fp.structure_hash not in profile.valid_structure_hashes:
         out += 1
-    c_out = c_bd = False
+    c_out = c_at = False
     if fp.canary_accuracy is not None:
-        c = _cmp(fp.canary_accuracy, profile.canary_accuracy_min)
-        if c == 0:
-            bd += 1
-            c_bd = True
-        elif c < 0:
+        if fp.canary_accuracy < profile.canary_accuracy_min:
             out += 1
             c_out = True
-    return out, bd, c_out, c_bd
+        elif fp.canary_accuracy == profile.canary_accuracy_min:
+            at += 1
+            c_at = True
+    return out, at, c_out, c_at
 
 
 class Ref:
@@ -192,24 +196,24 @@ def judged_inspect(ref, fp, anergic, call, just_trained=False):
     """Run one inspection (`call()` -> ImmuneResponse) under the reference rule, judged against the baseline and
     thresholds the watcher was created with (ref.profile / ref.rt / ref.at). Returns (resp, viols, info)."""
     profile, rep_threshold = ref.profile, ref.rt
-    out, bd, c_out, c_bd = position(profile, fp)
-    viol_perm = (out + bd) > 0          # possibly violating (boundary counts)
-    strict_in = not viol_perm           # certainly inside
-    if viol_perm:
+    out, bd, c_out, c_at = position(profile, fp)
+    strict_in = out == 0                # inside the baseline (a value exactly on a bound is inside)
+    if out:
         ref.streak += 1
     else:
         ref.streak = 0
     remembered = ref.has_memory and (fp.vocabulary_hash, fp.structure_hash) in ref.mem
-    second = bool(c_out or c_bd or ref.streak >= rep_threshold or ref.flag or remembered)
+    # a canary accuracy exactly equal to the trained minimum has not failed: no second signal
+    second = bool(c_out or ref.streak >= rep_threshold or ref.flag or remembered)
     desens = ref.desensitised           # from the history of dismissed false alarms, before this inspection
-    ref.alarm = out > 0 and not second  # certainly signal 1, certainly no signal 2: dismissing it is a false alarm
+    ref.alarm = out > 0 and not second  # signal 1, no signal 2: dismissing it is a false alarm
     resp = call()
     sig = getattr(resp.signal2, "value", str(resp.signal2))
     lvl = getattr(resp.threat_level, "value", str(resp.threat_level))
     act = getattr(resp.action, "value", str(resp.action))
     v = []
-    ctx_txt = (f"got {lvl}/{act} signal2={sig}; reference: outside={out} boundary={bd} streak={ref.streak}"
-               f"(threshold {rep_threshold}) flag={ref.flag} canary_failed={c_out or c_bd} remembered={remembered} "
+    ctx_txt = (f"got {lvl}/{act} signal2={sig}; reference: outside={out} on_a_bound={bd} streak={ref.streak}"
+               f"(threshold {rep_threshold}) flag={ref.flag} canary_failed={c_out} canary_exactly_at_minimum={c_at} remembered={remembered} "
                f"anergic={anergic} dismissed_false_alarms={ref.fa}(threshold {ref.at})")
     if anergic and not silent(resp):
         v.append((f"anergic-watcher-not-silent:{sig}", f"desensitised watcher must answer none/ignore; {ctx_txt}"))
@@ -218,8 +222,8 @@ def judged_inspect(ref, fp, anergic, call, just_trained=False):
                   f"as many false alarms were dismissed as the watcher's anergy threshold: it must answer none/ignore; {ctx_txt}"))
     elif strict_in and not silent(resp):
         v.append((f"inside-baseline-reported-{lvl}:{sig}",
-                  f"fingerprint strictly inside every bound must be none/ignore; {ctx_txt}"))
-    elif escalated(resp) and not second:      # (not strictly inside here, so signal 1 is at least arguable)
+                  f"fingerprint inside every bound (closed intervals) must be none/ignore; {ctx_txt}"))
+    elif escalated(resp) and not second:      # (signal 1 is present here)
         v.append((f"escalated-without-second-signal:{sig}",
                   f"confirmed/critical needs an independent second signal; {ctx_txt}"))
     if just_trained and not silent(resp):
@@ -319,6 +323,7 @@ PROFILE_SPECS = [
 ]
 D_PROFILES = {"quick": [0, 1], "thorough": [0, 1, 2, 3, 4]}     # D-tcell (full fingerprint product)
 T_PROFILES = {"quick": [0, 1, 4], "thorough": [0, 1, 2, 3, 4]}  # T (one fingerprint per reference class)
+F_PROFILES = {"quick": [0, 1, 2, 3, 4], "thorough": [0, 1, 2, 3, 4]}  # D-tcell: fine family around the exact bounds (all)
 
 
 def mk_profile(spec):
@@ -346,8 +351,50 @@ def _range_vals(lo, hi, tier):
     return list(dict.fromkeys(vals))        # a point interval gives lo == middle == hi once
 
 
-def fp_space(profile, tier):
-    """Every fingerprint on the product of per-dimension positions relative to each bound."""
+def _ulps(x, lowest=None, highest=None):
+    """The float just below x, x itself, the float just above x (kept inside [lowest, highest] where the field has
+    a domain: no negative error rate, no canary accuracy outside 0..1)."""
+    vals = [math.nextafter(x, -math.inf), x, math.nextafter(x, math.inf)]
+    return [v for v in dict.fromkeys(vals) if (lowest is None or v >= lowest) and (highest is None or v <= highest)]
+
+
+def fp_fine(profile):
+    """Fingerprints around the exact value of every trained quantity, all derived from the profile's public fields.
+    (1) one dimension (length, time, confidence, error rate, canary) on the float neighbours of each of its bounds
+        (just below, exactly at, just above) x every other ranged statistic / the error rate inside or far outside x
+        known / unknown hashes x canary absent / exactly at the minimum / below it;
+    (2) every subset of the five dimensions exactly on a bound at once (lower or upper), the rest inside, with and
+        without one definite violation (unknown vocabulary)."""
+    rngs = [profile.output_length_bounds, profile.response_time_bounds, profile.confidence_bounds]
+    m, cm = profile.error_rate_max, profile.canary_accuracy_min
+    fine = [list(dict.fromkeys(_ulps(lo) + _ulps(hi))) for lo, hi in rngs]
+    fine.append(_ulps(m, lowest=0.0))
+    fine.append(_ulps(cm, lowest=0.0, highest=1.0))
+    coarse = [[(lo + hi) / 2, hi + (hi - lo) / 4 + 0.01] for lo, hi in rngs]
+    coarse.append([m / 2, m + 0.1])
+    coarse.append([None, cm] + ([cm * 0.999] if cm > 0 else []))
+    vs = [sorted(profile.valid_vocabulary_hashes)[0], "unknown-vocabulary"]
+    ss = [sorted(profile.valid_structure_hashes)[-1], "unknown-structure"]
+    fps = []
+    for d in range(5):
+        dims = [fine[i] if i == d else coarse[i] for i in range(5)]
+        fps += [(l, t, c, e, v, s, k) for l in dims[0] for t in dims[1] for c in dims[2] for e in dims[3]
+                for v in vs for s in ss for k in dims[4]]
+    inside = [(lo + hi) / 2 for lo, hi in rngs] + [m / 2, None]
+    for side in (0, 1):
+        on = [r[side] for r in rngs] + [m, cm]
+        for mask in range(1, 32):
+            vals = [on[i] if mask >> i & 1 else inside[i] for i in range(5)]
+            for v in vs:
+                fps.append((vals[0], vals[1], vals[2], vals[3], v, ss[0], vals[4]))
+    return list(dict.fromkeys(fps))
+
+
+def fp_space(profile, tier, fine_only=False):
+    """Every fingerprint on the product of per-dimension positions relative to each bound, plus the fine family
+    around the exact bounds (fp_fine).  fine_only: the fine family alone."""
+    if fine_only:
+        return fp_fine(profile)
     ls = _range_vals(*profile.output_length_bounds, tier)
     ts = _range_vals(*profile.response_time_bounds, tier)
     cs = _range_vals(*profile.confidence_bounds, tier)
@@ -365,7 +412,8 @@ def fp_space(profile, tier):
     for c in cand:
         if c not in cans:
             cans.append(c)
-    return [(l, t, c, e, v, s, k) for l in ls for t in ts for c in cs for e in es for v in vs for s in ss for k in cans]
+    full = [(l, t, c, e, v, s, k) for l in ls for t in ts for c in cs for e in es for v in vs for s in ss for k in cans]
+    return list(dict.fromkeys(full + fp_fine(profile)))
 
 
 def tcell_case(profile, thr, anergy, streak, flag, fpv, ref_profile=None):
@@ -406,21 +454,22 @@ def tcell_case(profile, thr, anergy, streak, flag, fpv, ref_profile=None):
 def _tcell_jobs(tier):
     thrs = [(3, 2)] if tier == "quick" else [(3, 2), (2, 1)]
     jobs = []
-    for pi in D_PROFILES[tier]:
-        nfp = len(fp_space(mk_profile(PROFILE_SPECS[pi]), tier))
+    for pi in F_PROFILES[tier]:
+        fine_only = pi not in D_PROFILES[tier]      # these profiles: the family around the exact bounds only
+        nfp = len(fp_space(mk_profile(PROFILE_SPECS[pi]), tier, fine_only))
         step = 250
         for ti, thr in enumerate(thrs):
             for lo in range(0, nfp, step):
-                jobs.append((tier, pi, thr, lo, min(nfp, lo + step)))
+                jobs.append((tier, pi, thr, lo, min(nfp, lo + step), fine_only))
     return jobs
 
 
 def _tcell_work(job):
-    tier, pi, thr, lo, hi = job
+    tier, pi, thr, lo, hi, fine_only = job
     spec = PROFILE_SPECS[pi]
     profile = mk_profile(spec)
     ref_profile = mk_profile(spec)          # the reference's own copy of the baseline as built / as trained
-    fps = fp_space(profile, tier)[lo:hi]
+    fps = fp_space(profile, tier, fine_only)[lo:hi]
     anergies = (0, 1) if tier == "quick" or thr[1] < 2 else (0, 1, 2)   # 2 = one false alarm short of anergy
     cases = inspections = nontrivial = boundary = boundary_inside = 0
     outcomes = set()
@@ -838,6 +887,169 @@ def _train_work(job):
 
 
 # ------------------------------------------------------------------------------------------------
+# D-edge: observation events derived from the trained profile, through the whole ImmuneSystem
+# ------------------------------------------------------------------------------------------------
+
+EDGE_OUT = "alpha betas"            # plain text, two words; trailing blanks change the length only
+EDGE_PAD = 2                        # the trained outputs carry two trailing blanks (room below the trained length)
+EDGE_SHAPES = {"quick": [(2, 2, 2), (1, 1, 1)], "thorough": [(2, 2, 2), (1, 1, 1), (2, 2, 4), (3, 3, 3)]}
+EDGE_TOLS = {"quick": [None, 0.0], "thorough": [None, 0.0, 0.25]}
+EDGE_TIMES = [(1.0,), (1.0, 3.0)]                   # response times of the trained window (cycled)
+EDGE_ERRS = [(None,), (None, "E"), ("E",)]          # errors of the trained window (cycled): rate 0 / 0.5 / 1
+EDGE_CANS = [(), (True,), (True, False), (False,)]  # canary history at training: minimum 0.0 / 0.9 / 0.45 / 0.0
+EDGE_EVENTS = ([("same", "", 0)] + [(d, w, k) for d in ("rt", "conf", "len") for w in ("lo", "hi") for k in (-1, 0, 1)]
+               + [("err", "max", k) for k in (-1, 0, 1)] + [("canary", "min", k) for k in (-1, 0, 1)])
+CANARY_MAX = 24                     # canary histories are extended up to this many results
+
+
+def canary_extension(results, target, at_least=0):
+    """Shortest list of further canary results after which passed / total == target exactly (reference replay of the
+    display's accuracy); None if no history of up to CANARY_MAX results gets there."""
+    s0, n0 = sum(bool(r) for r in results), len(results)
+    for t in range(at_least, CANARY_MAX - n0 + 1):
+        if n0 + t == 0:
+            continue
+        for a in range(t, -1, -1):
+            if (s0 + a) / (n0 + t) == target:
+                return [True] * a + [False] * (t - a)
+    return None
+
+
+def edge_event(profile, base, results, event):
+    """The observation window (list of (output, time, confidence, error)) and further canary results that put ONE
+    statistic of the display's fingerprint just below (k=-1) / exactly at (0) / just above (+1) a bound of `profile`,
+    everything else as in `base` (the trained observations, cycled to a full window).  For float statistics the
+    neighbours are the adjacent floats; for the integer / rational ones (length, error rate, canary accuracy) the
+    nearest reachable value on that side (at: the bound itself if reachable, else the nearest value inside).
+    None when the display cannot produce it."""
+    dim, which, k = event
+    n = len(base)
+    if dim == "same":
+        return list(base), []
+    if dim in ("rt", "conf"):
+        lo, hi = profile.response_time_bounds if dim == "rt" else profile.confidence_bounds
+        b = lo if which == "lo" else hi
+        v = b if k == 0 else math.nextafter(b, math.inf if k > 0 else -math.inf)
+        return [(o, v, c, e) if dim == "rt" else (o, t, v, e) for o, t, c, e in base], []
+    if dim == "len":
+        lo, hi = profile.output_length_bounds
+        at = math.ceil(lo) if which == "lo" else math.floor(hi)     # the bound itself when it is a whole number
+        target = at + k
+        if target < len(EDGE_OUT):
+            return None
+        return [(o.rstrip(" ") + " " * (target - len(o.rstrip(" "))), t, c, e) for o, t, c, e in base], []
+    if dim == "err":
+        m = profile.error_rate_max
+        rates = [j for j in range(n + 1)]
+        if k == 0:
+            ok = [j for j in rates if j / n <= m]
+            j = max(ok) if ok else None
+        elif k < 0:
+            ok = [j for j in rates if j / n < m]
+            j = max(ok) if ok else None
+        else:
+            ok = [j for j in rates if j / n > m]
+            j = min(ok) if ok else None
+        if j is None:
+            return None
+        return [(o, t, c, "E" if i < j else None) for i, (o, t, c, e) in enumerate(base)], []
+    if dim == "canary":
+        ext = canary_extension(results, profile.canary_accuracy_min)
+        if ext is None:
+            return None
+        return list(base), ext + ([True] if k > 0 else [False] if k < 0 else [])
+    raise common.HarnessError(f"unknown derived event {event!r}")
+
+
+def edge_case(cfg, times, errs, cans, event, dev, flag, pre):
+    """Train on a window, then (optionally: an anomaly streak of `pre` inspections, a manual flag) replace the window
+    by the derived event (with `dev`: one word of the outputs replaced by an unknown one of the same length) and
+    inspect; every inspection is judged by the reference rule.  Returns (viols, outcome, (outside, at) or None)."""
+    mts, mo, ws, tol = cfg
+    vclock.use(vclock.VClock())
+    if tol is None:
+        imm = ImmuneSystem(min_training_samples=mts, min_observations=mo, window_size=ws)
+    else:
+        imm = ImmuneSystem(min_training_samples=mts, min_observations=mo, window_size=ws, thymus=Thymus(tolerance=tol))
+    imm.register_agent(AID)
+    trained = [(EDGE_OUT + " " * EDGE_PAD, times[i % len(times)], 0.9, errs[i % len(errs)]) for i in range(mo)]
+    for o in trained:
+        imm.record_observation(AID, *o)
+    results = [bool(c) for c in cans]
+    for c in results:
+        imm.record_canary_result(AID, c)
+    res = imm.train_agent(AID)
+    if res != SelectionResult.POSITIVE:
+        return [], ("edge", res.value), None
+    tc = imm.tcells[AID]
+    profile = copy.deepcopy(imm.profiles[AID])      # the reference's own copy, taken right after training
+    ref = Ref(profile=profile, rt=max(2, tc.repeated_anomaly_threshold), at=tc.anergy_threshold)
+    base = [trained[i % len(trained)] for i in range(ws)]
+    ev = edge_event(profile, base, results, event)
+    if ev is None:
+        return [], ("edge", "unreachable", event[0]), None
+    window, more = ev
+    if dev:
+        window = [(o.replace("betas", "gamma"), t, c, e) for o, t, c, e in window]
+    viols = []
+
+    def look(just_trained=False):
+        fp = imm.displays[AID].generate_peptide()
+        _, v, info = judged_inspect(ref, fp, imm.tcells[AID].is_anergic, lambda: imm.inspect(AID), just_trained=just_trained)
+        viols.extend(v)
+        return info
+
+    if pre:
+        lo, hi = profile.response_time_bounds
+        for o, t, c, e in base:
+            imm.record_observation(AID, o, hi + (hi - lo) + 10.0, c, e)
+        for _ in range(pre):
+            look()
+    if flag:
+        imm.flag_agent(AID, "operator")
+        ref.flag = True
+    for o in window:
+        imm.record_observation(AID, *o)
+    for c in more:
+        imm.record_canary_result(AID, c)
+    info, out, at, second = look(just_trained=(event[0] == "same" and not dev and not pre and ws == mo))
+    return viols, ("edge", event[0], event[2]) + info[:4], (out, at, second)
+
+
+def _edge_jobs(tier):
+    return [(tier, sh + (tol,), times, errs) for sh in EDGE_SHAPES[tier] for tol in EDGE_TOLS[tier]
+            for times in EDGE_TIMES for errs in EDGE_ERRS]
+
+
+def _edge_work(job):
+    tier, cfg, times, errs = job
+    cases = positive = at_bound = at_only = unreachable = second_n = 0
+    outcomes = set()
+    viols = {}
+    for cans in EDGE_CANS:
+        for event in EDGE_EVENTS:
+            for dev in (0, 1):
+                for flag in (0, 1):
+                    for pre in (0, 2):
+                        v, outc, pos = edge_case(cfg, times, errs, cans, event, dev, flag, pre)
+                        cases += 1
+                        outcomes.add(outc)
+                        if pos is None:
+                            unreachable += outc[1] == "unreachable"
+                        else:
+                            positive += 1
+                            at_bound += bool(pos[1])
+                            at_only += bool(pos[1]) and not pos[0]
+                            second_n += bool(pos[2])
+                        for key, what in v:
+                            e = viols.setdefault(key, [0, what, {"engine": "D-edge", "cfg": cfg, "times": times, "errs": errs,
+                                                                 "canaries": cans, "event": event, "dev": dev, "flag": flag, "pre": pre}])
+                            e[0] += 1
+    return dict(cases=cases, positive=positive, at_bound=at_bound, at_only=at_only, unreachable=unreachable,
+                second=second_n, outcomes=outcomes, viols=viols)
+
+
+# ------------------------------------------------------------------------------------------------
 # Engine A
 # ------------------------------------------------------------------------------------------------
 
@@ -873,7 +1085,10 @@ ROOTS = {
     # the watcher has just answered CONFIRMED / CRITICAL, once by each kind of second signal (streak, canary, flag):
     # resets of either kind, new observations and retraining are explored from there
     "confirmed-by-streak": TRAINED + [("obs", "slow")] + [("inspect",)] * 3,
-    "confirmed-by-canary": TRAINED + [("obs", "slow"), ("canary", 0), ("inspect",)],
+    "confirmed-by-canary": [("obs", "normal"), ("obs", "normal"), ("canary", 1), ("train",), ("obs", "slow"), ("canary", 0), ("inspect",)],
+    # trained without canaries (minimum 0.0): one failed canary puts the accuracy exactly ON the minimum, which is no
+    # canary failure; and canary results driven to exactly the trained minimum 0.9 next to one anomaly
+    "canary-at-zero-minimum": TRAINED + [("obs", "slow"), ("canary", 0), ("inspect",)],
     "confirmed-by-flag": TRAINED + THREAT,
     "critical-by-flag": TRAINED + [("obs", "bad"), ("obs", "bad"), ("flag",), ("inspect",)],
     "remembered": TRAINED + THREAT + [("reset",)],
@@ -902,6 +1117,19 @@ X_ROOTS = {
     "x-other-anergic": TRAINED + on(1, *TRAINED) + on(1, ("obs", "slow")) + on(1, *ALARM) * 5 + on(1, ("updated",)),
     # a second ImmuneSystem in the same process knows an agent of the same name as a flagged, remembered threat
     "x-second-system-threat": TRAINED + on(2, *TRAINED) + on(2, *THREAT),
+}
+
+
+# histories around the derived events (engine "E"): baselines with canary minimum 0.0 / 0.9 / 0.45, the canary results
+# already driven to exactly the trained minimum next to one anomaly, a remembered threat, bounds collapsed onto the mean
+TRAINED_C = [("obs", "normal"), ("obs", "normal"), ("canary", 1), ("train",)]
+E_ROOTS = {
+    "e-trained": TRAINED,
+    "e-trained-canary": TRAINED_C,
+    "e-trained-canary-half": [("obs", "normal"), ("obs", "normal"), ("canary", 1), ("canary", 0), ("train",)],
+    "e-canary-at-trained-minimum": TRAINED_C + [("obs", "slow"), ("edge", "canary"), ("inspect",)],
+    "e-remembered": TRAINED_C + THREAT + [("reset",)],
+    "e-tolerance-zero": [("cfg", "tol", 0.0)] + TRAINED_C,
 }
 
 
@@ -987,6 +1215,25 @@ class AModel:
             o.append(("reregister",))
         return o
 
+    def edge_ops(self, st, slot):
+        """Events derived from the baseline the slot's watcher was trained on (the reference's own copy of it)."""
+        imm, aid, ref = self._slot(st, slot)
+        if ref.profile is None:
+            return []
+        o = [("edge", "rt-hi")]
+        if self._canary_ext(imm, aid, ref):
+            o.append(("edge", "canary"))
+        return o
+
+    @staticmethod
+    def _canary_ext(imm, aid, ref):
+        """Further canary results that bring the display's accuracy to exactly the trained minimum (None / empty: not
+        reachable, or it is there already)."""
+        results = list(imm.displays[aid].canary_results)
+        if results and sum(results) / len(results) == ref.profile.canary_accuracy_min:
+            return None
+        return canary_extension(results, ref.profile.canary_accuracy_min, at_least=1)
+
     def _slot_canon(self, st, slot):
         imm, aid, ref = self._slot(st, slot)
         d = imm.displays[aid]
@@ -1041,6 +1288,18 @@ class AModel:
                 imm.record_observation(aid, o[0], o[1], o[2], o[3])
             elif kind == "canary":
                 imm.record_canary_result(aid, bool(op[1]))
+            elif kind == "edge":
+                if ref.profile is None:
+                    raise common.HarnessError("derived event without a trained baseline")
+                if op[1] == "rt-hi":        # a full window whose mean response time is exactly the upper bound
+                    o = OBS["normal"]
+                    for _ in range(st.cfg["ws"]):
+                        imm.record_observation(aid, o[0], ref.profile.response_time_bounds[1], o[2], o[3])
+                elif op[1] == "canary":     # canary results up to exactly the trained minimum
+                    for c in self._canary_ext(imm, aid, ref) or []:
+                        imm.record_canary_result(aid, c)
+                else:
+                    raise common.HarnessError(f"unknown derived event {op}")
             elif kind == "train":
                 res = imm.train_agent(aid)
                 if res == SelectionResult.POSITIVE:
@@ -1119,6 +1378,30 @@ class XModel(AModel):
         return o
 
 
+class EModel(AModel):
+    """ImmuneSystem histories whose observation / canary events are DERIVED from the baseline the watcher was trained
+    on: a full window with the mean response time exactly on the upper bound, canary results extended until the
+    accuracy is exactly the trained minimum and then one result more (just below / just above), next to the plain
+    normal / slow observations, flag, both resets, inspection and retraining.  Same per-agent reference."""
+    roots_table = E_ROOTS
+
+    def ops(self, st):
+        imm = st.systems[0]
+        vclock.use(st.clock)
+        o = [("obs", "normal"), ("obs", "slow")]
+        d = imm.displays[AID]
+        ref = st.refs[0]
+        at_min = bool(d.canary_results) and ref.profile is not None and \
+            sum(d.canary_results) / len(d.canary_results) == ref.profile.canary_accuracy_min
+        if len(d.canary_results) < 1 or (at_min and len(d.canary_results) < CANARY_MAX):
+            o += [("canary", 1), ("canary", 0)]
+        o.append(("train",))
+        if AID in imm.tcells:
+            o += [("inspect",), ("flag",), ("reset",), ("rwc",)]
+        o += self.edge_ops(st, 0)
+        return o
+
+
 # ------------------------------------------------------------------------------------------------
 # run / replay
 # ------------------------------------------------------------------------------------------------
@@ -1188,7 +1471,7 @@ def run(ctx):
             mk_profile(spec)
         except Exception as e:  # noqa: BLE001
             ctx.defer_harness_error(f"baseline profile {pi} cannot be built on this tree: {type(e).__name__}: {e}")
-            for table in (D_PROFILES, T_PROFILES):
+            for table in (D_PROFILES, T_PROFILES, F_PROFILES):
                 table[tier] = [i for i in table[tier] if i != pi]
 
     # ---- D-tcell
@@ -1244,11 +1527,21 @@ def run(ctx):
     ctx.stats["D-train.profiles"] = len(trained)
     ctx.sample({"engine": "D-train", "cfg": train_cfgs(tier)[0], "window": [obs_alphabet(tier)[0], obs_alphabet(tier)[5]], "canaries": (True,)})
 
+    # ---- D-edge
+    jobs = _edge_jobs(tier)
+    res, order = _guard(ctx, "D-edge", lambda: _pmap(ctx, _edge_work, jobs), ([], []))
+    _merge(ctx, res, order)
+    for r in res:
+        for k in ("cases", "positive", "at_bound", "at_only", "unreachable", "second"):
+            ctx.stats[f"D-edge.{k}"] += r[k]
+    ctx.sample({"engine": "D-edge", "cfg": (2, 2, 2, None), "times": (1.0,), "errs": (None,), "canaries": (True,),
+                "event": ("canary", "min", 0), "dev": 1, "flag": 0, "pre": 0})
+
     # ---- A
     model = AModel(tier)
     xmodel = XModel(tier)
     def prefixes():
-        for name, prefix in list(ROOTS.items()) + list(X_ROOTS.items()):      # root prefixes are judged once, like any other history
+        for name, prefix in list(ROOTS.items()) + list(X_ROOTS.items()) + list(E_ROOTS.items()):      # root prefixes are judged once, like any other history
             head = [list(prefix[0])] if prefix and prefix[0][0] == "cfg" else []
             body = prefix[len(head):]
             try:
@@ -1272,19 +1565,35 @@ def run(ctx):
         _usable_roots(ctx, xmodel, "X")
         return explore.explore(xmodel, ctx, 4 if tier == "quick" else 5, label="X", validate_canon=vc)
 
+    emodel = EModel(tier)
+
+    def e_search():
+        _usable_roots(ctx, emodel, "E")
+        return explore.explore(emodel, ctx, 5 if tier == "quick" else 6, label="E", validate_canon=vc)
+
     a = _guard(ctx, "A", a_search, dict(_NO_SEARCH))
     x = _guard(ctx, "X", x_search, dict(_NO_SEARCH))
+    e = _guard(ctx, "E", e_search, dict(_NO_SEARCH))
 
-    d_exec = ctx.stats["D-tcell.cases"] + ctx.stats["D-treg.cases"] + ctx.stats["D-treg.replayed"] // len(PAIRS) + ctx.stats["D-train.cases"]
-    d_eval = ctx.stats["D-tcell.inspections"] + ctx.stats["D-treg.cases"] + ctx.stats["D-treg.replayed"] + ctx.stats["D-train.positive"]
+    d_exec = (ctx.stats["D-tcell.cases"] + ctx.stats["D-treg.cases"] + ctx.stats["D-treg.replayed"] // len(PAIRS)
+              + ctx.stats["D-train.cases"] + ctx.stats["D-edge.cases"])
+    d_eval = (ctx.stats["D-tcell.inspections"] + ctx.stats["D-treg.cases"] + ctx.stats["D-treg.replayed"]
+              + ctx.stats["D-train.positive"] + ctx.stats["D-edge.positive"])
+    n_states = a["states"] + t["states"] + x["states"] + e["states"]
+    n_trans = a["transitions"] + t["transitions"] + x["transitions"] + e["transitions"]
     ctx.coverage.update(
-        states=a["states"] + t["states"] + x["states"],
-        transitions=a["transitions"] + t["transitions"] + x["transitions"],
-        traces_validated_against_impl=a["transitions"] + t["transitions"] + x["transitions"] + d_exec,
-        evaluations=a["transitions"] + t["transitions"] + x["transitions"] + d_eval,
-        distinct_nontrivial=a["states"] + t["states"] + x["states"] + ctx.stats["D-tcell.nontrivial"] + ctx.stats["D-treg.changed"] + ctx.stats["D-train.profiles"],
-        rule="D-tcell: every fingerprint on the product of per-bound positions of each profile x anergy x streak x flag "
+        states=n_states,
+        transitions=n_trans,
+        traces_validated_against_impl=n_trans + d_exec,
+        evaluations=n_trans + d_eval,
+        distinct_nontrivial=n_states + ctx.stats["D-tcell.nontrivial"] + ctx.stats["D-treg.changed"] + ctx.stats["D-train.profiles"]
+        + ctx.stats["D-edge.at_bound"],
+        rule="D-tcell: every fingerprint on the product of per-bound positions of each profile, plus the fine family on the "
+        "float neighbours of every bound (all profiles), x anergy x streak x flag "
         "(all distinct by construction; non-trivial = a baseline violation or a second signal is present in the reference); "
+        "D-edge: every trained window (times x errors x canary history x system shape x Thymus tolerance) x derived event "
+        "(one statistic below / at / above its trained bound) x second deviation x flag x anomaly streak (non-trivial = the "
+        "produced fingerprint has a statistic exactly on a bound); E: BFS over ImmuneSystem histories with derived events; "
         "D-treg: every level x action x rule set x record (stability threshold 0 / 1 / 3, stable or not, update, tolerated "
         "violation) x spelling of the condition's answer x rule duration, each on fresh objects and again through one shared "
         "Treg and record in two orders (non-trivial = the action was modified on fresh objects); D-train: the core "
@@ -1295,7 +1604,7 @@ def run(ctx):
         "thresholds (0 and 1 included) x with / without a used sibling watcher on the same profile object, distinct = canonical "
         "state; A: BFS over ImmuneSystem histories, distinct = canonical state; X: BFS over histories of two agents in one "
         "ImmuneSystem and of a second ImmuneSystem, distinct = canonical state",
-        exhaustive=not (a["capped"] or x["capped"]),
+        exhaustive=not (a["capped"] or x["capped"] or e["capped"]),
         depth_completed=a["depth_completed"],
         fixpoint=a["fixpoint"],
         a_roots=a["roots"],
@@ -1313,6 +1622,18 @@ def run(ctx):
         x_roots=x["roots"],
         x_frontier_left=x["frontier_left"],
         x_canon_pairs_validated=ctx.stats["X.canon_pairs_validated"],
+        e_states=e["states"],
+        e_transitions=e["transitions"],
+        e_depth=e["depth_completed"],
+        e_roots=e["roots"],
+        e_frontier_left=e["frontier_left"],
+        e_canon_pairs_validated=ctx.stats["E.canon_pairs_validated"],
+        edge_cases=ctx.stats["D-edge.cases"],
+        edge_trained=ctx.stats["D-edge.positive"],
+        edge_fingerprints_on_a_bound=ctx.stats["D-edge.at_bound"],
+        edge_fingerprints_on_a_bound_nothing_outside=ctx.stats["D-edge.at_only"],
+        edge_events_unreachable=ctx.stats["D-edge.unreachable"],
+        tcell_fine_profiles=len(F_PROFILES[tier]),
         treg_option_sets=len(RECORDS) * len(ENC_NAMES[tier]) * len(DUR_NAMES[tier]),
         treg_shared_object_evaluations=ctx.stats["D-treg.replayed"],
         treg_shared_object_answers_differing_from_fresh=ctx.stats["D-treg.differs"],
@@ -1327,10 +1648,13 @@ def run(ctx):
     if not a["fixpoint"]:
         ctx.coverage["caps_hit"] = (f"engine A is depth-bounded: depth {a['depth_completed']} completed from {a['roots']} roots, "
                                     f"{a['frontier_left']} frontier states unexpanded; engine X: depth {x['depth_completed']} from {x['roots']} roots, "
-                                    f"{x['frontier_left']} unexpanded (the D spaces are enumerated completely, the bare-TCell "
+                                    f"{x['frontier_left']} unexpanded; engine E: depth {e['depth_completed']} from {e['roots']} roots, "
+                                    f"{e['frontier_left']} unexpanded (the D spaces are enumerated completely, the bare-TCell "
                                     f"history search T reached its fixpoint)")
-    ctx.note(f"boundary fingerprints (a value exactly on a bound, nothing outside): {ctx.stats['D-tcell.boundary']} cases, "
-             f"{ctx.stats['D-tcell.boundary_inside']} answered none — the code reads bounds inclusively; not judged either way")
+    ctx.note(f"fingerprints with a value exactly on a bound and nothing outside: {ctx.stats['D-tcell.boundary']} D-tcell cases "
+             f"({ctx.stats['D-tcell.boundary_inside']} answered none), {ctx.stats['D-edge.at_only']} D-edge cases — judged as inside "
+             "the baseline (closed bounds, as the profile documents them); a canary accuracy exactly equal to the trained "
+             "minimum is no canary failure, hence no second signal")
     ctx.note("a canary accuracy below the trained minimum is at once a baseline violation and the second signal, so one "
              "failed canary alone yields CONFIRMED (CRITICAL below 0.5); the stronger reading 'independent of signal 1' is not asserted")
     ctx.note(f"stable-agent auto-tolerance maps any SUSPICIOUS response to IGNORE: {ctx.stats['D-treg.multi']} enumerated "
@@ -1344,6 +1668,14 @@ def run(ctx):
              "counted from the calls alone; on this tree that always coincides with, or is implied by, is_anergic")
     ctx.assumptions += [
         "finite moderate float fields only (NaN/inf fingerprints and observations are outside the explored alphabet)",
+        "reading of the baseline: output length / response time / confidence bounds are closed intervals, the error rate "
+        "violates above error_rate_max, the canary accuracy fails strictly below canary_accuracy_min (the field names and the "
+        "'[lo, hi]' / '>' / '<' wording of the profile's own reports); comparisons are exact floats, the reference never "
+        "calls BaselineProfile.check",
+        "D-edge / E derive their events from the profile copied right after training: floats adjacent to a bound for response "
+        "time and confidence (a full window of equal values has exactly that mean), whole-number lengths (trailing blanks) and "
+        "error / canary fractions nearest to the bound on either side; not derived: the 0.5 canary mark and the 3-violation "
+        "count that separate CRITICAL from CONFIRMED (the statement does not distinguish the two levels)",
         "the fingerprint of the current window is taken from MHCDisplay.generate_peptide() (the library's own display)",
         "desensitised = the watcher's public is_anergic property, or anergy_threshold dismissed false alarms in the history "
         "of calls; baseline and thresholds = the ones the watcher was created with (private copy taken at construction / "
@@ -1381,6 +1713,10 @@ def replay(ctx, case):
     if eng == "D-treg":
         v, _, _ = treg_case(case["level"], case["action"], tuple(tuple(r) for r in case["rules"]), tuple(case["record"]),
                             tuple(case.get("opt", ("bool", "none"))), tuple(tuple(p) for p in case.get("prefix", ())))
+        return v
+    if eng == "D-edge":
+        v, _, _ = edge_case(tuple(case["cfg"]), tuple(case["times"]), tuple(case["errs"]), tuple(case["canaries"]),
+                            tuple(case["event"]), case["dev"], case["flag"], case["pre"])
         return v
     if eng == "D-train":
         v, _, _ = train_case(tuple(case["cfg"]), [tuple(o) for o in case["window"]], tuple(case["canaries"]))
